@@ -3,11 +3,12 @@
    (cut_boundaries, remove_vertices, remove_trailing_edges, permute_vertices, reorder_vertices and
    the specification-side sub_lattice / rank / deg_in).
 
-   NOT covered by a theorem (checked on the implementation by harness/c12.py only):
-   "every plaquette none of whose edges was removed is a plaquette of the output with the same
-   geometry" for cut / remove_vertices / remove_trailing_edges, and "cutting creates no new
-   plaquettes" (topological; needs geometrically truthful crossing flags).  "Trailing-edge removal
-   creates no new plaquettes" is REFUTED below. *)
+   NOT covered by a theorem (checked on the implementation by harness/c12.py only): "cutting creates
+   no new plaquettes" (topological; needs geometrically truthful crossing flags).  "Trailing-edge
+   removal creates no new plaquettes" is REFUTED below.  ("Every plaquette none of whose edges was
+   removed is a plaquette of the output with the same geometry" — formerly listed here — is now
+   PROVED at the end of this file for select_edges, cut_boundaries, remove_vertices and
+   remove_trailing_edges: C12_plaquette_persists_*, for lattices without zero-length edges.) *)
 From Coq Require Import List ZArith Bool Arith Sorted.
 From Koala Require Import Model.Lattice Model.Surgery.
 From Koala Require Import Proofs.SurgeryFacts Proofs.SurgeryTrailing Proofs.SurgeryPerm Proofs.SurgeryEquivariant.
